@@ -86,8 +86,13 @@ func TestVerif_C05_RoleConflictSolo(t *testing.T) {
 		useCand := rapid.Bool().Draw(rt, "useCandidate")
 		known := rapid.Bool().Draw(rt, "knownSource")
 		preConnected := rapid.IntRange(0, 3).Draw(rt, "preConnected") == 0
-		cfg := simAgentConfig{controlling: controlling, maxBinding: 7, disconnected: time.Hour, keepalive: 2 * time.Second, explicitTimeout: true}
-		s, err := newSoloSim(cfg, []duoSockSpec{{Kind: simKindHost}, {Kind: simKindSrflx}}, []soloEpSpec{{Typ: CandidateTypeHost}, {Typ: CandidateTypeHost}})
+		lite := rapid.IntRange(0, 3).Draw(rt, "lite") == 0
+		cfg := simAgentConfig{controlling: controlling, lite: lite, maxBinding: 7, disconnected: time.Hour, keepalive: 2 * time.Second, explicitTimeout: true}
+		second := simKindSrflx
+		if lite {
+			second = simKindHost // lite agents have host candidates only
+		}
+		s, err := newSoloSim(cfg, []duoSockSpec{{Kind: simKindHost}, {Kind: second}}, []soloEpSpec{{Typ: CandidateTypeHost}, {Typ: CandidateTypeHost}})
 		if err != nil {
 			rt.Fatalf("harness: %v", err)
 		}
@@ -150,7 +155,7 @@ func TestVerif_C05_RoleConflictSolo(t *testing.T) {
 		})
 		s.inject(s.eps[0], to, req.Raw)
 		out := s.w.emittedSince(from, 0)
-		desc := fmt.Sprintf("agent role=%s T=%d; request role=%s T'=%d useCandidate=%v knownSource=%v preConnected=%v", ownRole, T, role, Tp, useCand, known, preConnected)
+		desc := fmt.Sprintf("agent role=%s lite=%v T=%d; request role=%s T'=%d useCandidate=%v knownSource=%v preConnected=%v", ownRole, lite, T, role, Tp, useCand, known, preConnected)
 		adjacent := T == Tp || T+1 == Tp || T-1 == Tp
 		boundary := false
 		for _, b := range c05Boundaries {
@@ -158,7 +163,7 @@ func TestVerif_C05_RoleConflictSolo(t *testing.T) {
 				boundary = true
 			}
 		}
-		st.Record(vfHashStr(desc), sameRole && (adjacent || boundary), fmt.Sprintf("sameRole:%v", sameRole), fmt.Sprintf("adjacent:%v", adjacent))
+		st.Record(vfHashStr(desc), sameRole && (adjacent || boundary), fmt.Sprintf("sameRole:%v", sameRole), fmt.Sprintf("adjacent:%v", adjacent), fmt.Sprintf("lite:%v", lite))
 		if sameRole && adjacent && st.WantSample() {
 			st.Sample(func() string { return desc })
 		}
@@ -235,6 +240,14 @@ func TestVerif_C05_RoleConflictSolo(t *testing.T) {
 		}
 		if !seen {
 			st.Label("no-request-after-conflict")
+		}
+		// the role itself (a lite agent in the controlled role sends no requests that would show it)
+		if got := s.ag.a.isControlling.Load(); got != (wantRole == "controlling") {
+			sig := "C05/conflict/role-after-keep"
+			if !keep {
+				sig = "C05/conflict/role-after-switch"
+			}
+			st.Fail(rt, sig, "%s: agent is controlling=%v after the conflict, want role %s", desc, got, wantRole)
 		}
 	})
 }
